@@ -5,13 +5,17 @@
    extra decrement after it), and the backend's
        for (i = 0; process_user_command () && i < connected_users; i++);
    Invariant: when the loop ends, no slot holds both a turn and a complete command, and no slot
-   was served twice in the cycle.                                                          *)
+   was served twice in the cycle.  A served command may fail (uncaught error): the longjmp to
+   the backend's error context abandons the loop and a new cycle begins, with every turn granted
+   again.  Across such restarts nobody is overtaken: between two services of one slot every
+   other slot that had a complete command waiting at the first of them is served (owed).   *)
 EXTENDS Integers, Sequences, FiniteSets, TLC
 
 CONSTANTS M,         \* max_users (slots 0..M-1)
           MaxQ,      \* bound on queued commands per user
           MaxCycles,
           TurnCheck, \* TRUE: get_user_command() tests HAS_CMD_TURN
+          AdvanceAfterHit, \* TRUE: the cursor moves past the slot just served (as written); FALSE: it stays on it (mutation)
           Bound      \* "users" : loop bounded by connected_users (as written); "one": a single call per cycle (mutation)
 
 VARIABLES used,    \* slot -> connected?
@@ -21,14 +25,16 @@ VARIABLES used,    \* slot -> connected?
           phase,   \* "poll" | "serve"
           i, cu,   \* loop counter, connected_users
           servedN, \* slot -> times served in this cycle
+          owed,    \* slot -> slots that had a command waiting when this slot was last served and have not been served since
           cycles, bad
-vars == <<used, q, turnf, cursor, phase, i, cu, servedN, cycles, bad>>
+vars == <<used, q, turnf, cursor, phase, i, cu, servedN, owed, cycles, bad>>
 
 Slots == 0 .. M - 1
 
 Init == /\ used \in [Slots -> BOOLEAN] /\ q = [s \in Slots |-> 0] /\ turnf = [s \in Slots |-> FALSE]
         /\ cursor \in Slots /\ phase = "poll" /\ i = 0 /\ cu = 0
         /\ servedN = [s \in Slots |-> 0] /\ cycles = 0 /\ bad = "none"
+        /\ owed = [s \in Slots |-> {}]
 
 \* top of the backend loop: grant turns, count users; then process_io(): arrivals, (dis)connects
 Grant ==
@@ -41,6 +47,7 @@ Grant ==
        /\ q' = [s \in Slots |-> IF ~used2[s] \/ s \in flip THEN 0
                                  ELSE IF q[s] + arr[s] > MaxQ THEN MaxQ ELSE q[s] + arr[s]]
        /\ cu' = Cardinality({s \in Slots : used[s]})
+       /\ owed' = [s \in Slots |-> IF s \in flip THEN {} ELSE owed[s] \ flip]
   /\ phase' = "serve" /\ i' = 0 /\ servedN' = [s \in Slots |-> 0]
   /\ cycles' = cycles + 1
   /\ UNCHANGED <<cursor, bad>>
@@ -57,21 +64,25 @@ ServeCall ==
   /\ phase = "serve"
   /\ LET r == Scan(cursor, M)
          s == r[1]
-         c2 == IF r[2] = 0 THEN M - 1 ELSE r[2] - 1     \* the extra decrement after a hit
+         c2 == IF ~AdvanceAfterHit THEN r[2] ELSE IF r[2] = 0 THEN M - 1 ELSE r[2] - 1     \* the extra decrement after a hit
      IN IF s = -1
         THEN /\ phase' = "poll" /\ cursor' = r[2]
              /\ bad' = IF \E t \in Slots : used[t] /\ turnf[t] /\ q[t] > 0 THEN "skipped" ELSE bad
-             /\ UNCHANGED <<q, turnf, servedN, i>>
+             /\ UNCHANGED <<q, turnf, servedN, i, owed>>
         ELSE /\ q' = [q EXCEPT ![s] = @ - 1]
              /\ turnf' = [turnf EXCEPT ![s] = FALSE]
              /\ servedN' = [servedN EXCEPT ![s] = @ + 1]
              /\ cursor' = c2
-             /\ LET more == IF Bound = "users" THEN i < cu ELSE FALSE IN
-                IF more THEN /\ phase' = "serve" /\ i' = i + 1 /\ bad' = IF servedN[s] >= 1 THEN "twice" ELSE bad
-                ELSE /\ phase' = "poll" /\ i' = i
-                     /\ bad' = IF servedN[s] >= 1 THEN "twice"
-                               ELSE IF \E t \in Slots : t # s /\ used[t] /\ turnf[t] /\ q[t] > 0 THEN "skipped"
-                               ELSE bad
+             /\ owed' = [t \in Slots |-> IF t = s THEN {w \in Slots \ {s} : used[w] /\ q[w] > 0} ELSE owed[t] \ {s}]
+             /\ \E fails \in BOOLEAN :
+                  LET more == IF fails THEN FALSE ELSE IF Bound = "users" THEN i < cu ELSE FALSE
+                      b0 == IF servedN[s] >= 1 THEN "twice" ELSE IF owed[s] # {} THEN "overtaken" ELSE bad IN
+                  IF more THEN /\ phase' = "serve" /\ i' = i + 1 /\ bad' = b0
+                  ELSE /\ phase' = "poll" /\ i' = i
+                       /\ bad' = IF b0 # "none" THEN b0
+                                 \* an uncaught error abandons the loop: the unserved keep their turn for the next cycle
+                                 ELSE IF ~fails /\ \E t \in Slots : t # s /\ used[t] /\ turnf[t] /\ q[t] > 0 THEN "skipped"
+                                 ELSE bad
   /\ UNCHANGED <<used, cu, cycles>>
 
 Next == Grant \/ ServeCall
